@@ -140,6 +140,20 @@ impl ChainState {
         disconnected
     }
 
+    /// Like `reorg`, but the replacement branch may have the same or less work than the one it replaces
+    /// (a node that comes back from an unclean shutdown on a sibling of its old tip, or short of it).
+    pub fn reorg_any(&mut self, depth: usize, new_blocks: Vec<Vec<Transaction>>) -> Vec<BlockHash> {
+        assert!(depth < self.active.len());
+        let mut disconnected = Vec::new();
+        for _ in 0..depth {
+            disconnected.push(self.active.pop().unwrap());
+        }
+        for txs in new_blocks {
+            self.mine(txs);
+        }
+        disconnected
+    }
+
     /// txid -> height for the active chain (linear scan from the tip, bounded by `max_depth`).
     pub fn confirmed_height(&self, txid: &Txid, max_depth: usize) -> Option<u32> {
         let n = self.active.len();
